@@ -148,8 +148,8 @@ def check(R):
             else:
                 R.expect('P10', b.fn, 'UpdateNOC validates against the fabric\'s own root', 'fabric::Fabric::root_ca' in src_calls(rs), 'root <= fabrics.fabric(fab_idx).root_ca()', f'{sorted(map(str, rs))[:6]}', b.where(t.bb))
         an = R.body(FS + '::add_noc')
-        confl = [(bb, o) for (bb, j, o, a, b2, d) in prims.compare_sites(an, ops=('Eq',)) if 'fabric::Fabric::fabric_id' in src_calls(prims.sources(an, a) | prims.sources(an, b2))]
-        R.expect('P2', an.fn, 'AddNOC scans existing fabrics for the same (fabric id, root key)', len(confl) >= 1 and any(c_.endswith('Fabrics::iter') for c_ in an.calls_summary), 'duplicate-fabric scan present', 'duplicate-fabric scan missing')
+        from C19 import dup_fabric_rule
+        dup_fabric_rule(R)
         un = R.body(FS + '::update_noc')
         R.cut('P2', un, 'Fabrics::update', call_bbs(un, 'fabric::Fabrics::update'), 'NOC fabric id == the fabric\'s id',
               lambda: _cmp_false(un, 'Ne', lambda s: 'cert::CertRef::get_fabric_id' in src_calls(s), lambda s: 'fabric::Fabric::fabric_id' in src_calls(s)))
